@@ -237,7 +237,9 @@ func sortedKeys(m map[interface{}]interface{}) []interface{} {
 	for k := range m {
 		keys = append(keys, k)
 	}
-	sort.Slice(keys, func(i, j int) bool { return fmt.Sprintf("%T%v", keys[i], keys[i]) < fmt.Sprintf("%T%v", keys[j], keys[j]) })
+	sort.Slice(keys, func(i, j int) bool {
+		return fmt.Sprintf("%T%v", keys[i], keys[i]) < fmt.Sprintf("%T%v", keys[j], keys[j])
+	})
 	return keys
 }
 
